@@ -1198,10 +1198,18 @@ package tree
 //@   call (*tree.Node).SetName [tip_i_gets_the_name_at_the_position_drawn_for_i] a0 == tips[rangeindex + 1] && a1 == names[p] && 0 <= p && p < len(names)
 //@   ensures [indexes_rebuilt_once] ghost(ncalls_ReinitIndexes) == old(ghost(ncalls_ReinitIndexes)) + 1 && ghost(ncalls_Perm) == old(ghost(ncalls_Perm)) + 1
 
+// LeastCommonAncestorUnrooted (property C05): the group is the set of given names that are tips of the tree; the walk
+// starts from the neighbour of the first tip, in traversal order, that is not in the group; an empty group or a group
+// made of all the tips is an error
 //@ func (*tree.Tree).LeastCommonAncestorUnrooted
 //@   flag treeop
 //@   requires t != nil
 //@   allocates nodeIndex, map[string]*Node, []*Node, []*Edge, iface
+//@   call (*tree.Tree).LeastCommonAncestorRecur [walk_from_the_neighbour_of_a_tip_outside_the_group_over_the_whole_tree] a1 == temproot.neigh[0] && a2 == nil && a3 == tipindex && temproot != nil && !has(tipindex, temproot.name) && len(tipindex) != 0
+//@   loop 1
+//@     invariant [only_names_of_tips_of_the_tree_enter_the_group] tipindex != nil && (forall s string :: {has(tipindex, s)} has(tipindex, s) ==> tipindex[s] != nil && len(tipindex[s].neigh) == 1)
+//@   loop 2
+//@     invariant [no_tip_outside_the_group_met_yet] temproot == nil
 
 // Rooting on an outgroup (property C05): when the outgroup is kept, the new root is a fresh node in the middle of
 // the separating branch: both halves get half of its length (when it has one) and both carry its support
@@ -1219,10 +1227,20 @@ package tree
 //@   allocates []*Node
 //@   assigns cell(nodes), elems("*Node")
 
+// MaxLengthPath (property C05): a branch without length is an error; the length returned is never negative and is 0
+// exactly when no path is returned; a longer candidate replaces the current one only when strictly longer
 //@ func tree.MaxLengthPath
-//@   requires cur != nil
+//@   requires cur != nil && INV12()
 //@   allocates []*Edge, iface
 //@   assigns nothing
+//@   ensures [never_negative_and_zero_iff_no_path] result2 == nil ==> result1 >= 0.0 && (len(result0) == 0 ==> result1 == 0.0) && (len(result0) > 0 ==> result1 > 0.0)
+//@   ensures [error_carries_no_path] result2 != nil ==> len(result0) == 0 && result1 == -1.0
+//@   ensures [path_in_storage_of_its_own] arr(result0) == 0 || fresh_arr(result0)
+//@   call tree.MaxLengthPath [walks_away_from_where_it_came_from] a0 == child && a1 == cur && child != prev
+//@   loop 1
+//@     invariant [best_path_in_storage_of_its_own] (arr(potentialedges) == 0 || fresh_arr(potentialedges)) && oldarrays_same("*Edge")
+//@     invariant [best_so_far] curlength >= 0.0 && (len(potentialedges) == 0 ==> curlength == 0.0) && (len(potentialedges) > 0 ==> curlength > 0.0) && INV12() && cur != nil
+//@     step [a_candidate_replaces_the_best_only_when_strictly_longer] next(curlength) >= curlength && (next(curlength) > curlength ==> len(next(potentialedges)) > 0 && next(potentialedges)[len(next(potentialedges)) - 1] == cur.br[rangeindex + 1])
 
 // Midpoint rooting (property C05): no fault when every path has length zero (an error is returned); the new root
 // cuts the chosen branch into two parts whose lengths add up to the old length, both carrying its support
